@@ -44,6 +44,17 @@ CLAIMS = {
         note="Trusted: symdf leaf models. Bounds: <=5 rows/input, <=3 partitions, <=3 selected columns, depth <=1 (quick) / 2 (thorough) before the selection.",
         design="§4 C04",
     ),
+    "C06": dict(
+        category="model_checking", engine="K+P",
+        technique="CrossHair on the real _divisions/_layer/_task methods with symbolic division values and a tracked row; z3 over symbolic index labels on every node of real plans",
+        text="K: Partitions, PartitionsFiltered, Head/Tail, FusedIO, LocSlice and the three repartition planners are executed with symbolic divisions, selections, slice bounds and "
+             "a tracked row - reported divisions are sorted, have npartitions+1 entries and contain the row wherever the operator's own tasks place it ('Confirmed over all paths'). "
+             "P: for every node of the unoptimised and fused plans of a program family over sources with symbolic index labels, every computed row lies inside the node's reported "
+             "divisions for all labels and cell values, and the division tuple is well-formed.",
+        note="Divisions asserted by the user (sources, set_index(divisions=)) are assumed; string/datetime divisions, quantile divisions, parquet statistics (C18) outside. "
+             "Bounds: tuples of <=5 divisions (K), <=5 rows and <=3 partitions (P).",
+        design="§4 C06",
+    ),
     "C07": dict(
         category="model_checking", engine="P",
         technique="symbolic execution of real plans; labels/names/container kind of every partition compared with the node's _meta (data-independent, path explorer for data-dependent branches)",
